@@ -498,6 +498,8 @@ class Executor:
             # a module constant bound exactly once to a literal is that literal (_ROOT_KEY = (0,))
             if ref[1].bind_count.get(last, 0) == 1:
                 lit = _literal_term(ref[2], ref[1])
+                if lit is not None and lit[0] == "dict" and _module_mutates(ref[1], last):
+                    lit = None       # a table somebody writes to is not a constant
                 if lit is not None:
                     return lit
             return ("modvar", "%s.%s" % (ref[1].name, last), ref[2])
@@ -1864,6 +1866,19 @@ class Executor:
                 if x[1] == k[1]:
                     return (True, v)
             return (False, None)
+        # a table keyed by types and constants ({int: 'q', 'uint': 'Q', float: 'd', bool: 'B'}) looked up with one of them
+        if k[0] in ("const", "builtin") and all(x[0] in ("const", "builtin") for x in keys):
+            nums = [x for x in list(keys) + [k] if x[0] == "const" and isinstance(x[1], (int, float, bool))]
+            if len({type(x[1]) for x in nums}) > 1:
+                return None         # 1 / 1.0 / True are one key to a dict: not decided here
+            try:
+                hash(k[1])
+            except TypeError:
+                return None
+            for x, v in zip(keys, vals):
+                if x == k:
+                    return (True, v)
+            return (False, None)
         return None
 
     def _sibling_method(self, st, base, attr):
@@ -1946,7 +1961,30 @@ def _literal_term(node, mod=None):
         return const(-node.operand.value)
     if isinstance(node, ast.Tuple) and all(isinstance(e, ast.Constant) for e in node.elts):
         return ("tuple",) + tuple(const(e.value) for e in node.elts)
+    if isinstance(node, ast.Dict) and mod is not None and node.keys and all(k is not None for k in node.keys):
+        # a table of constants written as a dict display
+        ks = [_literal_term(k, mod) for k in node.keys]
+        vs = [_literal_term(v, mod) for v in node.values]
+        if all(x is not None and x[0] in ("const", "builtin") for x in ks) and all(x is not None for x in vs):
+            return ("dict",) + tuple(ks) + tuple(vs)
     return None
+
+
+def _module_mutates(mod, name):
+    """the module changes the object bound to the global *name* in place somewhere (subscript store / del, augmented assignment, a
+    mutating method), or hands it to a call (which may)"""
+    for n in ast.walk(mod.tree):
+        if isinstance(n, ast.Subscript) and isinstance(n.value, ast.Name) and n.value.id == name and isinstance(n.ctx, (ast.Store, ast.Del)):
+            return True
+        if isinstance(n, ast.AugAssign) and isinstance(n.target, ast.Name) and n.target.id == name:
+            return True
+        if isinstance(n, ast.Call):
+            if isinstance(n.func, ast.Attribute) and isinstance(n.func.value, ast.Name) and n.func.value.id == name and n.func.attr in (
+                    "update", "setdefault", "pop", "popitem", "clear", "__setitem__", "__delitem__"):
+                return True
+            if any(isinstance(a, ast.Name) and a.id == name for a in list(n.args) + [k.value for k in n.keywords]):
+                return True
+    return False
 
 
 def _concrete(t):
